@@ -29,6 +29,17 @@ LinkPool == IF Rich
             ELSE {Link(4, 1, "http://a.example/", FALSE, ""), Link(4, 2, "http://b.example/", FALSE, ""), Link(4, 3, "S1!A1", TRUE, "")}
 ImgPool  == {[name |-> "sample1.png", ext |-> "png", extl |-> "png"], [name |-> "sample2.png", ext |-> "png", extl |-> "png"]}
 TablePool == {"T1", "T2"}
+(* what the style of a conditional-format rule formats with, by the kind the driver builds (package.rs "CondFmt") *)
+Fmt(font, fg, border, numfmt, prot) == [has |-> TRUE, font |-> font, fg |-> fg, bg |-> "", border |-> border, numfmt |-> numfmt, prot |-> prot]
+KindFmt == [none |-> NoFmt, empty |-> Fmt("", "", "", "", FALSE), numfmt |-> Fmt("", "", "", "0.00", FALSE),
+            prot |-> Fmt("", "", "", "", TRUE), font |-> Fmt("b", "", "", "", FALSE), fontn |-> Fmt("n", "", "", "", FALSE),
+            fillr |-> Fmt("", "FFFF0000", "", "", FALSE), fillg |-> Fmt("", "FF00FF00", "", "", FALSE),
+            border |-> Fmt("", "", "thin", "", FALSE), all |-> Fmt("b", "FF0000FF", "thin", "0.00", FALSE)]
+(* conditional formats: every kind alone first in its save (an empty / number-format-only / protection-only style as
+   the first differential format), two rules with an equal style, mixed kinds *)
+RulePool == IF Rich THEN << <<"empty">>, <<"numfmt">>, <<"prot">>, <<"font">>, <<"fillr">>, <<"border">>, <<"none", "fillg">>,
+                            <<"fillr", "empty", "fillr">>, <<"all", "numfmt", "fontn">> >>
+            ELSE << <<"empty">>, <<"fillr", "numfmt">>, <<"font", "fillr">> >>
 
 Pick(S) == IF Wide THEN {RandomElement(S)} ELSE S
 
@@ -62,8 +73,10 @@ AddImage == \E s \in Pick(Sh), im \in Pick(ImgPool) : /\ Len(wb.sheets[s].imgs) 
               /\ Log([a |-> "Image", s |-> s, r |-> 14, c |-> 1 + Len(wb.sheets[s].imgs), img |-> im.name])
 AddChart == \E s \in Pick(Sh) : /\ wb.sheets[s].charts < 1 /\ wb.sheets[s].name # "My <&> 'Sh'"
               /\ wb' = Post_Chart(wb, s) /\ Log([a |-> "Chart", s |-> s, r |-> 20, c |-> 1])
-AddCondFmt == \E s \in Pick(Sh), n \in Pick({1, 2}) : /\ Len(wb.sheets[s].cfr) < 2
-              /\ wb' = Post_CondFmt(wb, s, n) /\ Log([a |-> "CondFmt", s |-> s, sqref |-> "E1:E5", rules |-> n])
+AddCondFmt == \E s \in Pick(Sh), n \in Pick(DOMAIN RulePool) : /\ Len(wb.sheets[s].cfr) < 2
+              /\ wb' = Post_CondFmt(wb, s, [k \in DOMAIN RulePool[n] |-> KindFmt[RulePool[n][k]]])
+              /\ Log([a |-> "CondFmt", s |-> s, sqref |-> "E1:E5", fmts |-> RulePool[n],
+                      fm |-> [k \in DOMAIN RulePool[n] |-> KindFmt[RulePool[n][k]]]])
 AddMerge == \E s \in Pick(Sh) : /\ wb.sheets[s].merges = {}
               /\ wb' = Post_Merge(wb, s, Rect(8, 1, 9, 2)) /\ Log([a |-> "Merge", s |-> s, g |-> Rect(8, 1, 9, 2)])
 AddName == \E s \in Pick(Sh) : /\ wb.sheets[s].names = <<>>
@@ -96,6 +109,7 @@ GoodOrds == UNION {{Ords(i, o) : o \in Perms(ExtLinks(wb.sheets[i]))} : i \in DO
 
 SavedOK == \A os \in GoodOrds : PackageOK(SavePkg(wb, os))
 DecodedEqualsModel == \A os \in GoodOrds : Decode(SavePkg(wb, os)) = Content(wb)
+RulesCarried == \A os \in GoodOrds : RuleOffences(SavePkg(wb, os), wb, Intended) = {}
 (* the real enumeration: two independently ordered passes.  Expected to FAIL (MC_Package_deviant.cfg) *)
 TwoOrdersDecode == \A os \in GoodOrds, os2 \in GoodOrds : Decode(SaveWith(wb, os, os2)) = Content(wb)
 (* the file keeps the active index it is given.  Expected to FAIL after RemoveSheet (MC_Package_deviant.cfg) *)
